@@ -242,7 +242,17 @@ def fill():
     return (j, old)
 
 
+REVERTS = {"revert_fix_c06": ("d255248", ["C06"], "the pinned tree's C06 defect (Vec::collect_into discards the target for unknown-length sources)"),
+           "revert_fix_c14": ("fd1e860", ["C14"], "the pinned tree's C14 defect (partially filled ordered bag dropped on unwinding)")}
+for _k, _v in REVERTS.items():
+    M[_k] = (None, None, None, _v[1], "git revert of fix commit %s: %s" % (_v[0], _v[2]))
+
+
 def apply(name, root=REPO):
+    if name in REVERTS:
+        d = subprocess.run(["git", "-C", root, "show", REVERTS[name][0], "--", "src"], stdout=subprocess.PIPE, text=True, check=True).stdout
+        subprocess.run(["git", "-C", root, "apply", "-R", "-"], input=d, text=True, check=True)
+        return
     f, old, new, _, _ = M[name]
     path = os.path.join(root, f)
     s = open(path).read()
